@@ -643,7 +643,25 @@ func runPool(ctx *Ctx) {
 				script = append(script, "add 3", "tick 3", "fire 0", "fire 1")
 			}
 		}
-		if r.Chance(1, 6) {
+		if maxWorkers >= 2 && r.Chance(1, 6) {
+			// directed: a burst grows the pool, then ONE far future stays pending while the idle watchers time out
+			// one after the other — the last one must stay (or a new one must be responsible) until it fires
+			script = nil
+			for j := 0; j < maxWorkers+1; j++ {
+				script = append(script, "add 2")
+			}
+			script = append(script, "tick 5")
+			for j := 0; j < 2*maxWorkers+2; j++ {
+				script = append(script, fmt.Sprintf("fire %d", j))
+			}
+			script = append(script, fmt.Sprintf("add %d", 20*idle))
+			for round := 0; round < 5; round++ {
+				script = append(script, fmt.Sprintf("tick %d", idle+1))
+				for j := 0; j < maxWorkers+1; j++ {
+					script = append(script, "fire 0")
+				}
+			}
+		} else if r.Chance(1, 6) {
 			// directed: Cancel(X) is stopped right before the lock; X fires meanwhile (and/or is cancelled a second
 			// time); other futures occupy the heap; then the stopped Cancel goes on: it must not touch anybody else
 			script = []string{"add 2", "add 5", "add 9", "add 40", "cancelhold 0"}
